@@ -79,6 +79,47 @@ pub fn one_lookup(net: &mut Net, b: u64, n: usize, kind: &str, target: [u8; 20])
         "timeout_ms": tmax / MS, "servers": net.servers.len()})
 }
 
+/// One real client among fake peers whose ids are adversarially clustered around the target: they agree with it
+/// (and with each other) on a long prefix and differ only in the last bytes, including ties on the first 16 bytes.
+fn crafted(b: &mut u64, seed: u64, out: &mut Out, rng: &mut Rng, rounds: u64) {
+    use crate::fakenet::*;
+    use crate::sim::*;
+    for r in 0..rounds {
+        let target = rng.id();
+        let n = rng.range(3, 28) as usize;
+        let ids: Vec<[u8; 20]> = (0..n)
+            .map(|i| {
+                let mut id = target;
+                // first differing byte anywhere from 12 to 19; some peers differ from each other only in the last 1-4 bytes
+                let from = if i % 3 == 0 { 16 + rng.below(4) as usize } else { 12 + rng.below(8) as usize };
+                for x in id.iter_mut().skip(from) {
+                    *x = rng.below(256) as u8;
+                }
+                if id == target {
+                    id[19] ^= 1 + i as u8;
+                }
+                id
+            })
+            .collect();
+        let mut sim = Sim::new(seed ^ (r * 31 + 5), NetCfg { lat_min_ms: 5, lat_max_ms: 25, ..Default::default() });
+        sim.record = true;
+        let fnet = FakeNet::install(&mut sim, &ids, Box::new(|_, _, _| Reply::Default));
+        // the client only knows one of them; everybody lists everybody
+        let c = sim.add_node(NodeOpts::client(private_ip(3), &[fnet.bootstrap()[r as usize % n].clone()]));
+        sim.run_for(2500);
+        let mut net = Net { sim, servers: vec![], clients: vec![c], boot: vec![], spec: NetSpec { servers: n, clients: 1, plan: "private".into(), join: "crafted".into(), dead_bootstrap: 0, seed } };
+        for kind in ["find_node", "closest", "put"] {
+            let mut t = target;
+            if kind != "find_node" {
+                t[19] ^= rng.below(4) as u8;
+            }
+            let ev = one_lookup(&mut net, *b, c, kind, t);
+            out.line(&ev);
+            *b += 1;
+        }
+    }
+}
+
 pub fn run(args: &Args) -> i32 {
     let seed = args.u64("seed", 1);
     let thorough = args.thorough();
@@ -127,6 +168,9 @@ pub fn run(args: &Args) -> i32 {
             out.line(&ev);
             b += 1;
         }
+    }
+    if only.is_none() {
+        crafted(&mut b, seed, &mut out, &mut rng, if thorough { 60 } else { 10 });
     }
     out.finish();
     if let Some(p) = args.get("summary") {
